@@ -29,7 +29,7 @@ RULE = ("random histories of 3-40 events over 1-2 component groups, 1-3 regular 
         "history JSON; non-trivial = >=1 request observed after both resolvers hold a target")
 REQUIRED_BUCKETS = ["bounds-only-step-with-request", "only-one-target-changed", "both-targets-nonzero",
                     "expiry", "partial-failure-resend", "late-partial-failure-resend", "bounds-None", "doc-table", "request-on-bound"]
-REQUIRED_COUNTERS = ["requests_checked", "reported_targets_compared", "reports_checked"]
+REQUIRED_COUNTERS = ["requests_checked", "reported_targets_compared", "reports_checked", "expired_kind_checks"]
 ASSUMPTIONS = ["stubbed battery pool; PowerDistributor replaced by the harness reading the requests channel"]
 
 GROUPS = [frozenset({1, 2}), frozenset({7})]
@@ -234,7 +234,7 @@ async def _drive(case: dict[str, Any], out: dict[str, Any]) -> None:
                 g = GROUPS.index(frozenset(r.component_ids))
                 last_request[g] = r
                 req_hist.setdefault(g, []).append(r)
-            steps.append({"i": idx, "ev": ev, "state": state, "reports": reports,
+            steps.append({"i": idx, "ev": ev, "state": state, "reports": reports, "T": loop.time(),
                           "requests": [{"g": GROUPS.index(frozenset(r.component_ids)), "power": r.power.as_watts()}
                                        for r in reqs],
                           "bounds": {g: latest_bounds.get(g) for g in range(ng)}})
@@ -254,8 +254,23 @@ def check(case: dict[str, Any], rec: Any) -> None:
     subscribed_kinds = {(e["g"], e["op"]) for e in case["events"] if e["k"] == "prop"}
     nontrivial = False
     n_req = 0
+    last_prop_T: dict[tuple[int, bool], float] = {}
     for st in out["steps"]:
         ev = st["ev"]
+        if ev["k"] == "prop":
+            # expiry, judged independently of the resolvers' own state: when this proposal makes the manager re-resolve
+            # the group, an actor kind whose every proposal is older than the maximum age (60 s, + the 1 s clean-up
+            # timer, + slack) no longer has a say
+            for kind_op in (False, True):
+                seen = last_prop_T.get((ev["g"], kind_op))
+                if kind_op != ev["op"] and seen is not None and st["T"] - seen > 63.0:
+                    rec.count("expired_kind_checks")
+                    cur = st["state"][ev["g"]]["op" if kind_op else "reg"]
+                    if cur is not None and abs(cur) > 1e-9:
+                        rec.violation("proposals-older-than-the-maximum-age-still-count",
+                                      {"step": st["i"], "event": ev, "kind_operating_point": kind_op,
+                                       "age_of_its_newest_proposal_s": st["T"] - seen, "its_target": cur})
+            last_prop_T[(ev["g"], ev["op"])] = st["T"]
         for key, rep in st["reports"].items():
             g = int(key.split("/")[0])
             last_reported[(g, rep["op"])] = rep["target"]
